@@ -19,6 +19,8 @@ MOLS = [
     "{[#A][#B][#A]}.{#A=[$]C,#B=[$][O;0.5][$]}", "{[#A][#B]}.{#A=[$][N;0.3]=[N;0.3],#B=[$]C}",
     # an explicit hydrogen residue that is not the last residue
     "{[#H][#A][#B]}.{#H=[$][H],#A=[$]C[$],#B=[$]O}", "{[#X][#Y]}.{#X=[$]c1ccccc1,#Y=[$]S(=O)(=O)C}",
+    # explicit hydrogens with their own weight, zero included
+    "{[#A][#B]}.{#A=[$]C[O][H;w=0],#B=[$]C[C;w=0.5]}", "{[#A]|2}.{#A=[$]C([H;0])([H;w=0.25])[C;0.5][$]}",
 ]
 
 
@@ -123,6 +125,46 @@ def embed_record(mol, tag):
     return rec
 
 
+def annotated_weights(text, mol):
+    """weight of every atom AS WRITTEN in the string: the annotation of the fragment atom it instantiates (w=.. or the
+    first positional value, default 1); a hydrogen added on completion has the weight of the atom it completes.
+    Atoms shared by two fragments are left to the observed value."""
+    from .resolve import parse_fragment_block
+    try:
+        frags = dict(parse_fragment_block(text.split(".", 1)[1], coarse=False))
+    except Exception:
+        return {}
+    tpl = {}
+    for name, toks in frags.items():
+        ws = []
+        for t in toks:
+            if t["k"] != "A":
+                continue
+            w = 1.0
+            pos = [e for e in t["a"] if e["k"] == ""]
+            for e in t["a"]:
+                if e["k"] == "w":
+                    w = float(e["v"])
+            if pos and not any(e["k"] == "w" for e in t["a"]):
+                try:
+                    w = float(pos[0]["v"])
+                except ValueError:
+                    pass
+            ws.append(w)
+        tpl[name] = ws
+    out = {}
+    for a, d in mol.nodes(data=True):
+        m = d.get("mapping") or []
+        if len(m) == 1 and m[0][0] in tpl and m[0][1] < len(tpl[m[0][0]]):
+            out[a] = tpl[m[0][0]][m[0][1]]
+    for a, d in mol.nodes(data=True):
+        if a not in out and not d.get("mapping") and d.get("element") == "H":
+            nb = [x for x in mol.neighbors(a) if x in out]
+            if len(nb) == 1:
+                out[a] = out[nb[0]]
+    return out
+
+
 def fmap_record(text, tag):
     import numpy as np
     from cgsmiles.coordinates import forward_map_molecule
@@ -130,9 +172,10 @@ def fmap_record(text, tag):
     try:
         meta, mol = resolved(text)
         atoms = sorted(mol.nodes)
+        ann = annotated_weights(text, mol)
         for b in sorted(meta.nodes):
             gr = meta.nodes[b]["graph"]
-            rec["beads"].append([b, [[a, int(round(float(gr.nodes[a].get("weight", 1)) * 1000))] for a in sorted(gr.nodes)]])
+            rec["beads"].append([b, [[a, int(round(float(ann.get(a, gr.nodes[a].get("weight", 1))) * 1000))] for a in sorted(gr.nodes)]])
         # probe with unit positions: forward_map_molecule is linear in the atom positions
         for a in atoms:
             for x in atoms:
